@@ -27,18 +27,20 @@ type FsckOpts struct {
 }
 
 type FsckReport struct {
-	Problems    []string
-	NDirs       int
-	NFiles      int
-	NLinks      int
-	NIndirect   int // indirect + double-indirect blocks in use
-	HalfFreed   int // inodes with ShrinkSize beyond their size
-	OwnedBlocks int
-	MarkedData  int // data blocks marked in the bitmap
-	MarkedInos  int
-	FreeBlocks  uint64
-	FreeInodes  uint64
-	MaxDepth    int
+	Problems       []string
+	NDirs          int
+	NFiles         int
+	NLinks         int
+	NIndirect      int // indirect + double-indirect blocks in use
+	HalfFreed      int // inodes with ShrinkSize beyond their size
+	HalfFreedInums []uint64
+	RootBlocks     int // blocks mapped by the root directory
+	OwnedBlocks    int
+	MarkedData     int // data blocks marked in the bitmap
+	MarkedInos     int
+	FreeBlocks     uint64
+	FreeInodes     uint64
+	MaxDepth       int
 }
 
 func (r *FsckReport) bad(cat string, format string, a ...any) {
@@ -190,6 +192,7 @@ func Fsck(fs *fstxn.FsState, opts FsckOpts) *FsckReport {
 			if ip.ShrinkSize > limit {
 				limit = ip.ShrinkSize
 				r.HalfFreed++
+				r.HalfFreedInums = append(r.HalfFreedInums, inum)
 			}
 			for idx, b := range fi.data {
 				if idx >= limit {
@@ -288,6 +291,9 @@ func Fsck(fs *fstxn.FsState, opts FsckOpts) *FsckReport {
 		}
 	}
 	root := inodes[uint64(common.ROOTINUM)]
+	if root != nil {
+		r.RootBlocks = len(root.data)
+	}
 	if root == nil || root.ip.Kind != nt.NF3DIR {
 		r.bad("tree", "the root inode is not a directory")
 	} else {
